@@ -2,6 +2,7 @@
 import os
 
 import common as C
+import validout
 
 PROP = "C13"
 NAME = "c13"
@@ -12,7 +13,7 @@ def build(ctx):
     ctx.log("translate", out)
     if not ok:
         ctx.diag.append("translator failed: " + out[-300:])
-    C.prove(ctx, ["Props/C13.v"], ["Oblig/C13Obl.v"])
+    C.prove(ctx, ["Props/C13.v", "Props/C13Valid.v"], ["Oblig/C13Obl.v", "Oblig/ValidRevObl.v"])
     ok, out = C.build_harness()
     ctx.log("go build", out)
     if not ok:
@@ -72,6 +73,7 @@ def run(ctx):
         ctx.compare("File.Reversal", os.path.join(d, "model.txt"), os.path.join(d, "impl.txt"), os.path.join(d, "specs.jsonl"))
     else:
         ctx.diag.append("correspondence could not run: " + out[-300:])
+    validout.run(ctx, "reversal")
     summ = oracle(ctx, ctx.scale(8000, 150000))
     ctx.add_summary(summ, "File.Reversal oracle")
     if ctx.tier == "thorough":
